@@ -14,6 +14,8 @@ inline long long RowLegalizer::getDisplacement(int width, int targetPos,
 
   int cur_pos = end_;
   long long cur_cost = 0;
+  // The cells already pushed have been accounted for up to this position
+  const int costLimit = end_ - usedSpace();
 
   std::vector<Bound> passed_bounds;
 
@@ -23,7 +25,9 @@ inline long long RowLegalizer::getDisplacement(int width, int targetPos,
           bounds.top().absolutePos > end_ - usedSpace() - width)) {
     int old_pos = cur_pos;
     cur_pos = bounds.top().absolutePos;
-    cur_cost += static_cast<long long>(old_pos - cur_pos) * (slope + width);
+    cur_cost += static_cast<long long>(std::min(old_pos, costLimit) -
+                                       std::min(cur_pos, costLimit)) *
+                (slope + width);
     slope += bounds.top().weight;
 
     // Remember which bounds we encountered in order to reset the object to its
@@ -40,7 +44,8 @@ inline long long RowLegalizer::getDisplacement(int width, int targetPos,
       std::min(end_ - usedSpace() - width,
                std::max(begin_, slope >= 0 ? cur_pos : targetAbsPos));
 
-  cur_cost += (cur_pos - finalAbsPos) * (slope + width);
+  cur_cost += static_cast<long long>(std::min(cur_pos, costLimit) - finalAbsPos) *
+              (slope + width);
 
   assert(finalAbsPos >= begin_);
   assert(finalAbsPos <= end_ - usedSpace() - width);
@@ -63,8 +68,9 @@ inline long long RowLegalizer::getDisplacement(int width, int targetPos,
   }
 
   return cur_cost +
-         width * std::abs(finalAbsPos -
-                          targetAbsPos);  // Add the cost of the new cell
+         static_cast<long long>(width) *
+             std::abs(finalAbsPos -
+                      targetAbsPos);  // Add the cost of the new cell
 }
 
 long long RowLegalizer::getCost(int width, int targetPos) {
